@@ -18,7 +18,7 @@ MANIFEST = dict(
          "point of the real stack (manager + locator + spa + facade on the virtual loop against the real simulator): the harness injects async_reset() / context exit "
          "exactly when the pump task's coroutine stack is at that point - exits with a client handler that returns at once AND with one that really suspends - lets the "
          "loop settle, and compares the ledger (transports never closed, tasks alive at the instant the exit returns and later, observers left, pump alive, handler "
-         "activity after the exit, callbacks on late datagrams) with the model's prediction. The crash-point table has one entry per suspension point of the regenerated skeletons of _connect and discover (crash_points_cover_every_suspension: two independent translators agree). Also: two commands of each kind in flight when the connection is reset / the context exited; task_registry_tracks_every_task. discover_releases_endpoint_on_every_exit and awaits_inside_finally_are_the_finished_announcements (all 58 coroutines). Prompt termination (2 s after every reset) and a reset issued by the client from inside its RF-error handler. Session 5: cancellation_ends_every_coroutine / cancellation_propagates - Model/Cancel.lean gives the skeletons Python's rule for which handler gets a CancelledError (first in source order that is bare / BaseException / CancelledError) and an inductive relation Cancelled sk o (a cancellation delivered at one of the awaits of sk makes it end with o); cancelOuts_sound proves the executable analysis, and all 58 regenerated coroutines end by the exception under every cancellation. Crash point added: a reset from another task while a consumer's callback (the client's handler of an RF error) is suspended. Round 14: a reset that is itself interrupted (time-limited, slow teardown handler), then a complete reset / the exit.",
+         "activity after the exit, callbacks on late datagrams) with the model's prediction. The crash-point table has one entry per suspension point of the regenerated skeletons of _connect and discover (crash_points_cover_every_suspension: two independent translators agree). Also: two commands of each kind in flight when the connection is reset / the context exited; task_registry_tracks_every_task. discover_releases_endpoint_on_every_exit and awaits_inside_finally_are_the_finished_announcements (all 58 coroutines). Prompt termination (2 s after every reset) and a reset issued by the client from inside its RF-error handler. Session 5: cancellation_ends_every_coroutine / cancellation_propagates - Model/Cancel.lean gives the skeletons Python's rule for which handler gets a CancelledError (first in source order that is bare / BaseException / CancelledError) and an inductive relation Cancelled sk o (a cancellation delivered at one of the awaits of sk makes it end with o); cancelOuts_sound proves the executable analysis, and all 58 regenerated coroutines end by the exception under every cancellation. Crash point added: a reset from another task while a consumer's callback (the client's handler of an RF error) is suspended. Round 14: a reset that is itself interrupted (time-limited, slow teardown handler), then a complete reset / the exit. Round 15: the host refuses the connection's UDP endpoint once / twice (OSError from create_datagram_endpoint in the virtual loop) and the reset comes before, in or after the refusal.",
     note="partial: 'closed' = close() called on the transport object the loop handed out; await points inside the standard library are collapsed to the geckolib await that "
          "contains them; error-path await points of _connect that a healthy handshake never reaches are predicted by the model but not exercised; asyncio delivering a "
          "pending cancellation at the next suspending await is assumed.",
@@ -430,6 +430,55 @@ def explore_commands_in_flight(kind):
     return res
 
 
+def explore_endpoint_refused(reset_after, refusals=1, then_exit=True):
+    """the host refuses the connection's UDP endpoint (OSError from `create_datagram_endpoint`, the network still coming up) `refusals`
+    times; the client resets `reset_after` seconds after start-up - before, while or after the library deals with the refusal. Whatever
+    the library does about the refusal: once things have settled nothing may be left that the manager does not own, and after the exit nothing at all"""
+    from geckolib import GeckoAsyncSpaMan
+    res = {}
+
+    async def body(loop):
+        events = []
+
+        class Man(GeckoAsyncSpaMan):
+            async def handle_event(self, event, **kw):
+                events.append((round(loop.time(), 2), str(event).split(".")[-1]))
+        sim = fakenet.make_sim(SNAP)
+        loop.network = fakenet.Network(loop, sim)
+        loop.endpoint_faults = refusals
+        m = Man("uuid-1", spa_identifier=IDENT, spa_address="10.0.0.9", spa_name="Spa")
+        await m.__aenter__()
+        await asyncio.sleep(reset_after)
+        res["refused_before_reset"] = getattr(loop, "endpoint_refusals", 0)
+        try:
+            await asyncio.wait_for(m.async_reset(), 60)
+        except BaseException as e:  # noqa
+            res["reset_raised"] = f"{type(e).__name__}: {e}"
+        n_ev = len(events)
+        await asyncio.sleep(40)
+        cur = getattr(m._spa, "_transport", None) if m._spa else None
+        res["state"] = str(m.spa_state)
+        res["endpoints_nobody_owns"] = [t.id for t in loop.transports if not t.closed and t is not cur and not t.kw.get("allow_broadcast")]
+        alive = collections.Counter(t.get_name().split(":")[0] for t in asyncio.all_tasks() if not t.done() and ":" in t.get_name())
+        expect = {"SPA": 7, "FACADE": 1} if m.facade is not None else ({"SPA": 7} if m._spa is not None else {})
+        res["tasks_leaked"] = {k: alive.get(k, 0) - expect.get(k, 0) for k in ("SPA", "FACADE") if alive.get(k, 0) > expect.get(k, 0)}
+        res["refused"] = getattr(loop, "endpoint_refusals", 0)
+        if then_exit:
+            try:
+                await asyncio.wait_for(m.__aexit__(None, None, None), 60)
+            except BaseException as e:  # noqa
+                res["exit_raised"] = f"{type(e).__name__}: {e}"
+            await asyncio.sleep(5)
+            n2 = len(events)
+            await asyncio.sleep(30)
+            res["events_after_exit"] = events[n2:][:5]
+            res["open_at_end"] = [t.id for t in loop.transports if not t.closed]
+            res["tasks_at_end"] = [t.get_name() for t in asyncio.all_tasks() if t is not asyncio.current_task() and not t.done()]
+        res["events_tail"] = events[max(0, n_ev - 3):n_ev + 6]
+    vloop.run_virtual(body, seed=1, stable=True)
+    return res
+
+
 def show(e, t, o, p):
     return f"endpointOpen={int(bool(e))} tasksAlive={int(bool(t))} observersLeft={int(bool(o))} pumpAlive={int(bool(p))}"
 
@@ -535,6 +584,24 @@ def run(ctx):
                           "every background task of the abandoned connection terminates", c["alive_after"])
         elif not c.get("connected") or len(c.get("command_tasks", [])) < 4:
             ctx.count("commands_in_flight_not_set_up")
+    # ------------- the host refuses the connection's endpoint once / twice (network still coming up); the reset comes before, while or after
+    for reset_after in (0.3, 0.5, 0.9, 1.4, 2.5, 3.5, 6.5):
+        for refusals in (1, 2):
+            try:
+                r = explore_endpoint_refused(reset_after, refusals)
+            except Exception as e:  # noqa
+                r = {"raised": f"{type(e).__name__}: {e}"}
+            ctx.count("evaluations")
+            ctx.hist("endpoint_refused", f"reset at {reset_after}s, {refusals} refusals")
+            bad = {k: v for k, v in r.items() if k in ("raised", "reset_raised", "exit_raised", "endpoints_nobody_owns", "tasks_leaked", "events_after_exit", "open_at_end", "tasks_at_end") and v}
+            if bad:
+                ctx.violation("endpoint-refused:left-behind", {"kind": "endpoint-refused", "reset_after": reset_after, "refusals": refusals},
+                              "after the reset has settled every open endpoint and task belongs to the manager's current connection; after the exit nothing is left and no event follows",
+                              dict(bad, state=r.get("state"), events=r.get("events_tail")))
+                break
+        else:
+            continue
+        break
     # ------------- a reset that is itself interrupted (a time-limited reset with a slow client), then a complete reset / the exit
     for then in ("reset", "exit"):
         try:
@@ -583,6 +650,10 @@ def run(ctx):
 
 
 def replay(inp):
+    if inp.get("kind") == "endpoint-refused":
+        r = explore_endpoint_refused(inp["reset_after"], inp["refusals"])
+        bad = {k: v for k, v in r.items() if k in ("raised", "reset_raised", "exit_raised", "endpoints_nobody_owns", "tasks_leaked", "events_after_exit", "open_at_end", "tasks_at_end") and v}
+        return bool(bad), bad or "nothing left behind"
     if inp.get("kind") == "interrupted-reset":
         r = explore_interrupted_reset(inp["then"])
         bad = {k: v for k, v in r.items() if k in ("open_after_second_reset", "alive_after_second_reset", "open_at_end", "alive_at_end") and v}
